@@ -168,6 +168,14 @@ def run(ctx):
     gb = [r for r in recs if r["kind"] == "garbage"]
     acc, rej = judge(ctx, tr, job)
     garbage_verdicts(ctx, gb, job)
+    if not rej:
+        def corrupt(t):
+            for e in t:
+                if e["ev"] == "Dump" and e["ents"]:
+                    e["ents"][0]["rem"] += 5
+                    return t
+            return None
+        cl.binding_selfcheck(ctx, [r["events"] for r in tr if r["tag"] == "behaviour"], corrupt, "dumped message expiry")
     if len(slow) > len(tr) // 5 and not rej:
         raise vlib.Infra("%d of %d real phases exceeded the 0.9 s skew budget (machine too loaded)" % (len(slow), len(tr) + len(slow)))
     if not rej and (len(tr) < len(behs) or not gb):
